@@ -670,6 +670,15 @@ func (c *Ctx) ruleIgnoreSetAdd() {
 	}
 	name := FuncName(add)
 	var sawMin, sawMax, sawMarkers, sawIndex bool
+	var minStores, maxStores, minLowers, maxRaises int
+	onlyWhileUnset := func(b *ssa.BasicBlock, field string) bool {
+		for _, l := range P.BlockGuards(b) {
+			if l.Kind == "eq" && l.Pos && (isFieldOf(P, l.X, IS, field) || isFieldOf(P, l.Y, IS, field)) && (isZeroPos(l.X) || isZeroPos(l.Y)) {
+				return true
+			}
+		}
+		return false
+	}
 	// Add and the helpers it hands part of the bookkeeping to, read in Add's calling context
 	pins, family := P.ContextPins(add)
 	var fams []*ssa.Function
@@ -730,6 +739,10 @@ func (c *Ctx) ruleIgnoreSetAdd() {
 								c.fail("IGNORESET/MINMAX", name+"#MinPos#extra-guard", where, "the update of MinPos additionally depends on "+short(ls)+": a marker for which that comparison goes the other way does not lower MinPos")
 							}
 						}
+						minStores++
+						if !onlyWhileUnset(b, "MinPos") {
+							minLowers++
+						}
 						sawMin = okV && cut
 						c.check(okV && cut, "IGNORESET/MINMAX", name+"#MinPos", where, "MinPos = marker.StartPos iff unset or StartPos < MinPos", "MinPos is not maintained as the minimum of the markers' start positions: "+short(P.Desc(x.Val)))
 					case "MaxPos":
@@ -761,6 +774,10 @@ func (c *Ctx) ruleIgnoreSetAdd() {
 							if ls := l.String(); strings.Contains(ls, "lt(") && (strings.Contains(ls, "util.IgnoreSet.MinPos") || strings.Contains(ls, "util.IgnoreMarker.StartPos")) {
 								c.fail("IGNORESET/MINMAX", name+"#MaxPos#extra-guard", where, "the update of MaxPos additionally depends on "+short(ls)+": a marker for which that comparison goes the other way does not raise MaxPos")
 							}
+						}
+						maxStores++
+						if !onlyWhileUnset(b, "MaxPos") {
+							maxRaises++
 						}
 						sawMax = okV && cut
 						c.check(okV && cut, "IGNORESET/MINMAX", name+"#MaxPos", where, "MaxPos = marker.EndPos iff unset or EndPos > MaxPos", "MaxPos is not maintained as the maximum of the markers' end positions: "+short(P.Desc(x.Val)))
@@ -797,6 +814,13 @@ func (c *Ctx) ruleIgnoreSetAdd() {
 			})
 		}
 	})
+	// a bound that is stored only while it is unset is the first marker's, not the minimum / maximum
+	if minStores > 0 && minLowers == 0 {
+		c.fail("IGNORESET/MINMAX", name+"#MinPos#never-lowered", P.Pos(add.Pos()), "every store to MinPos stands under `MinPos == NoPos`: a later marker that starts earlier does not lower it")
+	}
+	if maxStores > 0 && maxRaises == 0 {
+		c.fail("IGNORESET/MINMAX", name+"#MaxPos#never-raised", P.Pos(add.Pos()), "every store to MaxPos stands under `MaxPos == NoPos`: a later marker that ends later does not raise it")
+	}
 	c.check(sawMin && sawMax && sawMarkers && sawIndex, "IGNORESET/ADD-SHAPE", name, P.Pos(add.Pos()), "Add maintains Markers, CodeIndex, MinPos, MaxPos", "Add does not maintain all of Markers, CodeIndex, MinPos, MaxPos")
 	// marker copy of the annotation
 	mfn := P.LookupFunc("util", "IgnoreSet.AddModuleIgnore")
